@@ -256,6 +256,16 @@ func (w *verifLW) outboxEntry(class string, k int) any {
 			return act
 		}
 		return a
+	case "other_actor_case":
+		/* an actor whose id differs from the owner's in the case of a letter only: somebody else */
+		twin := strings.Replace(w.owner, "/actors", "/Actors", 1)
+		w.publish(w.actor(twin, "A"))
+		a := w.activity(act, "A", "Create", twin, w.object(k))
+		w.publish(a)
+		if w.rng.Intn(2) == 0 {
+			return act
+		}
+		return a
 	case "other_actor_samehost_query":
 		/* an actor whose id differs from the owner's only in the query */
 		sep := "?"
@@ -321,6 +331,13 @@ func (w *verifLW) replyEntry(class string, k int, parent string) any {
 		other := w.note(w.A.URL(fmt.Sprintf("/s%d/notes/other", w.sid)), "A", w.owner, nil)
 		w.publish(other)
 		n := w.note(r, "A", w.owner, other["id"])
+		w.publish(n)
+		return n
+	case "other_parent_case":
+		/* a reply to a post whose address differs from this one's in the case of a letter only: another post */
+		twin := strings.Replace(parent, "/notes/n", "/Notes/n", 1)
+		w.publish(w.note(twin, "A", w.owner, nil))
+		n := w.note(r, "A", w.owner, twin)
 		w.publish(n)
 		return n
 	case "no_parent":
